@@ -177,7 +177,7 @@ func (r *Rnd) fillObj(t *TV, ty *TY, info *spec.EMsg, m TFMode, depth int) {
 		}
 		for _, g := range spec.SortedKeys(groups) {
 			gr := NewRnd(base ^ hashName(g))
-			bs := groups[g]
+			bs := sortedCopy(groups[g])
 			if gr.P(3, 4) {
 				active[g] = bs[gr.N(len(bs))]
 			} else {
